@@ -68,11 +68,11 @@ def gen_cases(rng, tier):
 
 
 def model_line(l):
-    # kind 3 (a reused closure callback) is kind 0 for the model: the rows describe the first feed
+    # kind 3 (a reused closure callback) is the model's refeed case: '2 stop method n items..'
     t = l.split()
     if len(t) > 4 and t[2] == "0" and t[3] == "3":
-        t[3] = "0"
-        return " ".join(t)
+        items = t[6:]
+        return " ".join(t[:2] + ["2", t[4], t[5], str(len(items))] + items)
     return l
 
 
